@@ -196,6 +196,9 @@ def c_op(op):
         return 'OComp %s %s %s' % (c_nat(op[1]), c_nat(op[2]), c_nat(op[3]))
     if k in ('abs', 'mcopy', 'sum', 'sum0'):
         return '%s %s %s' % ({'abs': 'OAbs', 'mcopy': 'OMethCopy', 'sum': 'OSum', 'sum0': 'OSum0'}[k], c_nat(op[1]), c_nat(op[2]))
+    if k == 'view':
+        return 'OView %s %s %s %s' % (c_nat(op[1]), c_nat(op[2]), coq_list([c_nat(p) for p in op[3]]),
+                                      coq_list(['(%s, %s, %s)' % (zlit(a), zlit(b), c_nat(c)) for a, b, c in op[4]]))
     if k == 'del':
         return 'ODel %s' % c_nat(op[1])
     raise AssertionError(k)
@@ -245,7 +248,10 @@ class Real(object):
         if k == 'new':
             _, d, kind, dt, sh, val = op
             init = (tuple(sh), None, np.dtype('float64') if dt == 'DReal' else np.dtype('complex128'))
-            world[d] = self.CLS[kind](init, val=float(val))
+            if flavour % 2 == 1:
+                world[d] = self.CLS[kind](init, val=float(val), order='F')     # memory layout is not observable in the model
+            else:
+                world[d] = self.CLS[kind](init, val=float(val))
         elif k == 'newpart':
             _, d, sh, vals = op
             world[d] = self.particles((tuple(sh), None, np.dtype('float64')), val=tuple(float(v) for v in vals))
@@ -315,6 +321,17 @@ class Real(object):
         elif k == 'sum0':
             v = self.operand(world, ('n', op[2]))
             world[op[1]] = np.sum(v, axis=0) if flavour % 2 == 0 else v.sum(axis=0)
+        elif k == 'view':
+            _, d, s_, perm, sl = op
+            v = self.operand(world, ('n', s_))
+            idx = []
+            for start, step, count in sl:
+                stop = start + step * count
+                idx.append(slice(start, stop if stop >= 0 else None, step))
+            if flavour % 2 == 0 or list(perm) != sorted(perm):
+                world[d] = v.transpose(tuple(perm))[tuple(idx)]
+            else:
+                world[d] = v[tuple(idx)]
         elif k == 'del':
             if op[1] not in world:
                 raise NameError('name %d' % op[1])
@@ -500,14 +517,47 @@ class Gen(object):
                 else:
                     src = self.partner(world, np.zeros(tshape)) if tshape != () else self.scalar()
                 return ('set', x, s, src)
-            if c < 0.74 and arrays:                       # slicing / indexing
+            if c < 0.70 and arrays:                       # slicing / indexing on the first axis
                 x = r.choice(arrays)
                 if world[x].ndim == 0:
                     continue
                 return ('get', d, x, self.sel_for(world[x]))
+            if c < 0.76 and arrays:                       # strided / reversed / sub-block / transposed views
+                multis = [i for i in arrays if getattr(type(world[i]), 'components', None) and world[i].ndim >= 2 and world[i].shape[0] == 2]
+                x = r.choice(multis) if multis and r.random() < 0.7 else r.choice(arrays)
+                v = world[x]
+                if v.ndim == 0 or v.size == 0:
+                    continue
+                keep0 = x in multis and r.random() < 0.9           # keep the component axis where it is
+                perm = list(range(v.ndim))
+                if v.ndim >= 2 and r.random() < 0.4:
+                    rest = perm[1:] if keep0 else perm[:]
+                    r.shuffle(rest)
+                    perm = ([0] + rest) if keep0 else rest
+                sl = []
+                for kax, p in enumerate(perm):
+                    n = v.shape[p]
+                    m = r.random()
+                    if (keep0 and kax == 0) or m < 0.25:
+                        sl.append((0, 1, n))
+                    elif m < 0.45:
+                        sl.append((n - 1, -1, n))
+                    elif m < 0.65:
+                        st = r.randint(0, min(1, n - 1))
+                        sl.append((st, 2, (n - st + 1) // 2))
+                    elif m < 0.85:
+                        lo = r.randint(0, n - 1)
+                        sl.append((lo, 1, r.randint(1, n - lo)))
+                    else:
+                        hi = r.randint(0, n - 1)
+                        sl.append((hi, -2, hi // 2 + 1))
+                return ('view', d, x, perm, sl)
             if c < 0.82:                                  # component access
                 multi = self.names(world, lambda w: hasattr(type(w), 'components') and type(w).components and
                                    (w.ndim >= 2 or w.shape[0] != 2))
+                noncontig = [i for i in multi if not world[i].flags.c_contiguous and world[i].shape[0] == 2]
+                if noncontig and r.random() < 0.5:          # components of strided / transposed / F-ordered parents
+                    return ('comp', d, r.choice(noncontig), r.randrange(2))
                 pool = multi + parts + flds
                 if pool and r.random() < 0.92:
                     x = r.choice(pool)
@@ -710,6 +760,10 @@ def oracle_step(g, op, before_objs, before_snaps, world, exc, views):
                 bad.append(('component access does not return a writable view of the parent buffer', 'component-view'))
             else:
                 views.append((res, src, c))
+    if k == 'view':
+        res, src = world[op[1]], g._before_world.get(op[2])
+        if not (isinstance(res, np.ndarray) and type(res) is type(src) and (res.size == 0 or np.shares_memory(res, src))):
+            bad.append(('a strided / transposed slice is not a view of the same class sharing the buffer', 'slice-view'))
     if k == 'abs':
         src = g._src_obj
         res = world[op[1]]
@@ -793,6 +847,13 @@ def op_signature(op):
         return 'new:%s:%s' % (op[2], op[3])
     if k == 'set' or k == 'get':
         return '%s:%s' % (k, op[2][0] if k == 'set' else op[3][0])
+    if k == 'view':
+        kinds = set()
+        if list(op[3]) != sorted(op[3]):
+            kinds.add('T')
+        for a, b, c in op[4]:
+            kinds.add('rev' if b == -1 else 'step' if b == 2 else 'revstep' if b == -2 else 'blk')
+        return 'view:' + '+'.join(sorted(kinds))
     return k
 
 
@@ -1064,7 +1125,7 @@ REQUIRED = ['C13_ops_preserve_objects', 'C13_ops_preserve_others', 'C13_value_se
             'C13_setitem_frame', 'C13_setitem_preserves_disjoint', 'C13_copy_independent', 'C13_component_views_alias',
             'C13_component_view_tracks_parent', 'C13_abs_is_maxnorm', 'C13_maxnorm_triangle', 'C13_maxnorm_homogeneous',
             'C13_maxnorm_zero_iff', 'C13_complex_maxnorm_triangle', 'C13_particles_result_independent_refuted',
-            'C13_wfs_reachable', 'C13_setitem_reads_back', 'C13_component_write_seen_in_parent', 'C13_parent_write_seen_in_component']
+            'C13_wfs_reachable', 'C13_setitem_reads_back', 'C13_strided_views_alias', 'C13_strided_component_write_seen_in_base', 'C13_component_write_seen_in_parent', 'C13_parent_write_seen_in_component']
 
 
 def run_level(ck):
